@@ -229,12 +229,71 @@ func (p *Prog) Accesses(fn *ssa.Function) []FieldAccess {
 // freshBase reports whether the access is to an object allocated in the same function (constructor context).
 func freshBase(a FieldAccess) bool {
 	root := AccessPath(a.Base).Root
-	al, ok := root.(*ssa.Alloc)
-	if !ok {
+	if _, ok := root.(*ssa.Alloc); ok {
+		return true
+	}
+	// the object a constructor just returned (l := NewBlockingLimiter(...); l.name = name; return l) is as fresh as
+	// one allocated here
+	if call, ok := root.(*ssa.Call); ok && curProg != nil {
+		return curProg.returnsFresh(call.Call.StaticCallee(), 2)
+	}
+	return false
+}
+
+// returnsFresh: every return of g yields (the address of) an object g allocated itself, or what another such function
+// returned; g is an unexported-or-exported module function, not a method (a method could return part of its receiver).
+func (p *Prog) returnsFresh(g *ssa.Function, depth int) bool {
+	if g == nil || g.Blocks == nil || !p.InModule(g) || g.Signature.Recv() != nil || depth < 0 {
 		return false
 	}
-	_ = al
-	return true
+	if p.freshFn == nil {
+		p.freshFn = map[*ssa.Function]bool{}
+	}
+	if v, ok := p.freshFn[g]; ok {
+		return v
+	}
+	p.freshFn[g] = false
+	ok := true
+	n := 0
+	allInstrs(g, func(ins ssa.Instruction) {
+		ret, isR := ins.(*ssa.Return)
+		if !isR || len(ret.Results) == 0 {
+			return
+		}
+		n++
+		seen := map[ssa.Value]bool{}
+		var fresh func(v ssa.Value, d int) bool
+		fresh = func(v ssa.Value, d int) bool {
+			v = strip(v, false)
+			if d > 6 || seen[v] {
+				return true
+			}
+			seen[v] = true
+			switch x := v.(type) {
+			case *ssa.Alloc:
+				return true
+			case *ssa.Const:
+				return x.Value == nil
+			case *ssa.Phi:
+				for _, e := range x.Edges {
+					if !fresh(e, d+1) {
+						return false
+					}
+				}
+				return true
+			case *ssa.Call:
+				return p.returnsFresh(x.Call.StaticCallee(), depth-1)
+			case *ssa.MakeInterface:
+				return fresh(x.X, d+1)
+			}
+			return false
+		}
+		if !fresh(ret.Results[0], 0) {
+			ok = false
+		}
+	})
+	p.freshFn[g] = ok && n > 0
+	return ok && n > 0
 }
 
 // Constructors returns the functions of T's package that allocate a T and return it (or its address).
